@@ -257,3 +257,49 @@ def permutation_slices(f):
         ft, fv = slice_form(t.slice), slice_form(v.slice)
         res.setdefault(t.value.id, []).append((ft, fv, v.value.id, st))
     return res
+
+
+def masked_selection(run, repo, f, kernel_names, rule='R13.masksel'):
+    """In the branch where a qubit mask is given, the strings handed to the kernel are exactly the masked qubits' columns:
+    self.gs[:, M] with M = repeat(mask, 2) (interleaved expansion of the mask parameter, possibly converted first)."""
+    from .guards import entails
+    from ..names import deref
+    if 'mask' not in f.params:
+        return 0
+    n = 0
+    for st, ctx in walk(f.node):
+        calls = [c for c in ast.walk(st) if isinstance(c, ast.Call) and isinstance(c.func, ast.Name) and c.func.id in kernel_names] \
+            if isinstance(st, (ast.Assign, ast.Expr)) else []
+        for c in calls:
+            masked, _ = entails(ctx.conds, [('mask is None', False)])
+            if not masked:
+                continue
+            callee = repo.resolve_local(f, c.func.id)
+            from .resolve import bind
+            m, err = bind(callee, c, False)
+            strings = [a for formal, a in m.items() if formal in ('gs', 'gs_in')]
+            for a in strings:
+                n += 1
+                ok = False
+                why = 'the operand strings are %s' % norm(a)
+                if isinstance(a, ast.Subscript) and isinstance(a.slice, ast.Tuple) and len(a.slice.elts) == 2 \
+                        and isinstance(a.slice.elts[0], ast.Slice) and a.slice.elts[0].lower is None and a.slice.elts[0].upper is None:
+                    col = deref(f, a.slice.elts[1])
+                    if _is_expansion(col):
+                        src = col.args[0] if not (isinstance(col.func, ast.Attribute) and norm(col.func.value) not in ('numpy', 'np', 'torch')) else col.func.value
+                        src = deref(f, src)
+                        # conversions of the mask parameter (numpy.array(mask), mask.to(bool)) keep it the same mask
+                        while isinstance(src, ast.Call):
+                            if isinstance(src.func, ast.Attribute) and src.func.attr in ('to', 'astype', 'bool', 'cpu', 'numpy'):
+                                src = src.func.value
+                            elif src.args:
+                                src = src.args[0]
+                            else:
+                                break
+                        ok = isinstance(src, ast.Name) and src.id == 'mask'
+                        why = 'the column mask expands %s' % norm(src)
+                    else:
+                        why = 'the column index %s is not repeat(mask, 2)' % norm(col)
+                run.check(ok, rule, f, c, 'with a qubit mask the kernel must receive exactly the masked qubits\' (x,z) columns self.gs[:, repeat(mask, 2)]; '
+                          '%s (a contiguous block or any other selection acts on the wrong qubits for masks with gaps)' % why)
+    return n
